@@ -1,6 +1,6 @@
 /-
-  C29 (integer / conversion part) — `abs` returns the magnitude (and panics only at the minimum
-  integer), `mod` follows truncated-remainder sign rules, `to_string`/`parse_int`/`to_int` agree
+  C29 (integer / conversion part) — `abs` returns the magnitude (and wraps only at the minimum
+  integer, never panics), `mod` follows truncated-remainder sign rules, `to_string`/`parse_int`/`to_int` agree
   on integers. Model: VrlModel/Conv/Num.lean (+ Conv/Int.lean), tied to src/stdlib/{abs,mod_func,
   to_int,to_string,parse_int}.rs by the `c29.*` correspondence ops. Spec predicates:
   VrlModel/C29int.lean. The float part of C29 lives elsewhere.
@@ -28,22 +28,33 @@ theorem abs_in_range (n : Int) (hn : inI64 n = true) (hmin : n ≠ i64Min) :
   have : n ≠ -9223372036854775808 := hmin
   omega
 
-/-- witness of the known finding `abs:D_min_negate`: `abs(i64::MIN)` panics
-    ("attempt to negate with overflow" in `i64::abs`, overflow checks on). -/
-theorem abs_min_panics : Num.abs (.int i64Min) = .panic := by
+/-- integers wrap only at the minimum integer: `abs(i64::MIN) = i64::MIN` (`wrapping_abs`;
+    before the repair 6983af4 `i64::abs` panicked there under overflow checks). -/
+theorem abs_min_wraps : Num.abs (.int i64Min) = .ok (.int i64Min) := by
   simp [Num.abs]
 
-theorem abs_panics_iff (n : Int) : Num.abs (.int n) = .panic ↔ n = i64Min := by
-  simp only [Num.abs]
-  constructor
-  · intro h
-    by_cases hn : n = i64Min
-    · exact hn
-    · simp [hn] at h
-  · intro h; simp [h]
+/-- the result is negative only at the minimum integer -/
+theorem abs_nonneg_iff (n r : Int) (h : Num.abs (.int n) = .ok (.int r)) : r < 0 ↔ n = i64Min := by
+  by_cases hn : n = i64Min
+  · subst hn
+    rw [abs_min_wraps] at h
+    cases h
+    simp [i64Min]
+  · rw [abs_magnitude n hn] at h
+    cases h
+    simp only [hn, iff_false]
+    omega
 
-theorem specAbs_model (n : Int) (hmin : n ≠ i64Min) : specAbs n (Num.abs (.int n)) = true := by
-  simp [specAbs, abs_magnitude n hmin]
+/-- `abs` never panics, whatever its argument is. -/
+theorem abs_never_panics (v : Value) : Num.abs v ≠ .panic := by
+  cases v <;> simp only [Num.abs] <;> try (intro h; cases h)
+  split <;> (intro h; cases h)
+
+/-- the full statement through the Spec predicate the oracle evaluates: every `i64`. -/
+theorem specAbs_model (n : Int) : specAbs n (Num.abs (.int n)) = true := by
+  by_cases hmin : n = i64Min
+  · subst hmin; simp [specAbs, abs_min_wraps]
+  · simp [specAbs, abs_magnitude n hmin, hmin]
 
 /-- `abs` of a float clears the sign bit and nothing else. -/
 theorem abs_float (bits : Nat) (h : bits < 2 ^ 64) :
